@@ -2260,3 +2260,88 @@ def check_mapping_iterators(ck, rule, prog, file_rx, floor=0):
     if floor:
         ck.floor(rule, "mapping iterators", len(fs), floor, soft=True)
     return len(fs)
+
+
+# =====================================================================================================
+# ERR: a failure of a crate function is not turned into success
+# =====================================================================================================
+ERR_SWALLOW = {"ok", "unwrap_or_default", "unwrap_or", "unwrap_or_else", "is_ok", "is_err", "or", "or_else", "map_or", "map_or_else", "err", "iter", "into_iter"}
+ERR_ASSERT = {"unwrap", "expect", "unwrap_unchecked", "expect_err"}
+ERR_FORWARD = {"branch", "map_err", "and_then", "map", "inspect_err", "inspect"}
+
+
+def error_sites(prog, file_rx=r".*"):
+    """call sites of crate functions that return `Result<_, HpoError>`, with what happens to the result:
+    'propagate' (`?`, returned, matched, mapped on), 'assert' (unwrap / expect: a panic, not a silent success),
+    'swallow' (`.ok()`, `unwrap_or*`, only `is_ok()`...), 'unused'.  list of dict(body, callee, kind, uses, line)"""
+    out = []
+    for b in prog.production():
+        if b.kind not in ("Fn", "AssocFn", "Closure") or not re.search(file_rx, b.file or ""):
+            continue
+        for bi, t in b.calls():
+            tg = prog.bodies.get(t.callee.res) if t.callee.res else None
+            if tg is None or t.dest is None or not t.dest.is_local():
+                continue
+            rt = tg.locals[0]["s"]
+            if "Result<" not in rt or "HpoError" not in rt:
+                continue
+            d = t.dest.local
+            uses = []
+            work, seen = [d], set()
+            while work:
+                l = work.pop()
+                if l in seen:
+                    continue
+                seen.add(l)
+                for pos, st in b.stmts():
+                    if st.k != "assign":
+                        continue
+                    if st.rv["k"] in ("use", "ref"):
+                        src = st.rv["op"].place if st.rv["k"] == "use" else st.rv["place"]
+                        if src is not None and src.local == l:
+                            if st.place.is_local():
+                                work.append(st.place.local)
+                                if st.place.local == 0:
+                                    uses.append("return")
+                    elif st.rv["k"] == "discr" and st.rv["place"].local == l:
+                        uses.append("match")
+                for bj, u in b.calls():
+                    if any(a.place is not None and a.place.local == l for a in u.args):
+                        uses.append(u.callee.method)
+                        if u.callee.method in ERR_FORWARD and u.callee.method != "branch" and u.dest is not None and u.dest.is_local():
+                            work.append(u.dest.local)
+            if d == 0:
+                uses.append("return")
+            us = set(uses)
+            kind = "swallow" if us & ERR_SWALLOW else "assert" if us & ERR_ASSERT else "propagate" if us & {"branch", "return", "match"} else "unused" if not us else "other"
+            out.append({"body": b, "callee": tg, "kind": kind, "uses": sorted(us), "line": t.line})
+    return out
+
+
+def check_error_discipline(ck, rule, prog, file_rx, allowed=(), floor=0):
+    """allowed: iterable of (caller short regex, callee short regex, reason) for sites where turning the error into `None` / a default is
+    the documented behaviour"""
+    n = 0
+    cnt = {}
+    for r in error_sites(prog, file_rx):
+        b, tg = r["body"], r["callee"]
+        owner = prog.bodies[b.root].short if b.kind == "Closure" and b.root in prog.bodies else b.short
+        key = "%s<-%s" % (owner, tg.short)
+        i = cnt.get(key, 0)
+        cnt[key] = i + 1
+        n += 1
+        if r["kind"] in ("propagate", "assert"):
+            continue
+        ok_reason = next((why for crx, trx, why in allowed if re.search(crx, owner) and re.search(trx, tg.short)), None)
+        if ok_reason:
+            ck.ob(rule, "error/%s/%d" % (key, i), True, "%s turns the error of %s into a plain value (%s): %s" % (owner, tg.short, ", ".join(r["uses"]), ok_reason), where=b.where(r["line"]))
+        elif r["kind"] == "swallow":
+            ck.ob(rule, "error/%s/%d" % (key, i), False, "%s discards the error of %s with `%s`: a failure is reported as success / replaced by a default" % (owner, tg.short, [u for u in r["uses"] if u in ERR_SWALLOW][0]), where=b.where(r["line"]))
+        elif r["kind"] == "unused":
+            ck.ob(rule, "error/%s/%d" % (key, i), False, "%s ignores the Result of %s" % (owner, tg.short), where=b.where(r["line"]))
+        else:
+            ck.undecided(rule, "error/%s/%d" % (key, i), "%s consumes the Result of %s through %s: not classified" % (owner, tg.short, r["uses"]), where=b.where(r["line"]))
+    ck.ob(rule, "error/sites", True, "%d call site(s) of fallible crate functions examined in these files: each propagates (`?`, return, match), asserts (unwrap / expect) or is a listed exception" % n)
+    if floor:
+        ck.floor(rule, "call sites of fallible crate functions", n, floor, soft=True)
+    return n
